@@ -45,7 +45,7 @@ type fs struct {
 }
 
 func (fs *fs) Walk(ctx context.Context, target string, fn gofs.WalkDirFunc) error {
-	seenFiles := make(map[uint64]string)
+	seenFiles := make(map[inodeKey]string)
 	return filepath.WalkDir(filepath.Join(fs.root, target), func(path string, dirEntry gofs.DirEntry, walkErr error) (retErr error) {
 		defer func() {
 			if retErr != nil && isNotExist(retErr) {
@@ -225,7 +225,7 @@ type DirEntryInfo struct {
 	entry     gofs.DirEntry
 	path      string
 	origpath  string
-	seenFiles map[uint64]string
+	seenFiles map[inodeKey]string
 }
 
 func (s *DirEntryInfo) Name() string {
